@@ -101,7 +101,9 @@ def invariants(case, P):
                     continue
                 pp = unwrap(far.protocol)
             # the Leader end must have been selected on this link at some point (it wrote its KCM there)
-            if not getattr(pp, "_can_send_records", False) and getattr(pp, "_manager", None) is None:
+            if not hasattr(pp, "_can_send_records") or not hasattr(pp, "_manager"):
+                continue        # cannot observe selection on this tree: clause not judged
+            if not pp._can_send_records and pp._manager is None:
                 return ("confirmed", "the Follower selected a connection whose Leader end was never selected",
                         "follower-selected-unconfirmed-connection")
     return None
